@@ -38,7 +38,7 @@ SetAttrClauses(ct, name, tok, r, s, s2) ==
   LET decl == Declared(ct, name)
       ante == [
         C04_decl     |-> r.ok,
-        C04_value    |-> r.ok /\ decl /\ tok.kind = "str",
+        C04_value    |-> r.ok /\ decl /\ tok.kind \in {"str", "int", "special"},
         C05_complete |-> decl /\ ValidOffer(DeclOf(ct, name).type, tok),
         C04_store    |-> r.ok,
         C10_frame    |-> ~r.ok,
@@ -46,7 +46,9 @@ SetAttrClauses(ct, name, tok, r, s, s2) ==
         C19_quiet    |-> TRUE ]
   IN [ante |-> ante, holds |-> [
    C04_decl     |-> ante.C04_decl => decl,                         \* only declared attributes are accepted
-   C04_value    |-> ante.C04_value => InLex(DeclOf(ct, name).type, tok.s),   \* accepted strings are valid for the type
+   \* an accepted string / int / bool / non-finite value has a text (str(value)) that is valid for the type; floats
+   \* are judged on what is emitted (C05_sound), their repr may legitimately use exponent notation
+   C04_value    |-> ante.C04_value => InLex(DeclOf(ct, name).type, tok.s),
    C05_complete |-> ante.C05_complete => r.ok,                      \* valid normalised offers are accepted
    C04_store    |-> ante.C04_store => (name \in NamesOf(s2.attrs) /\ SameExcept(s.attrs, s2.attrs, name) /\ s2.val = s.val),
    C10_frame    |-> ante.C10_frame => (s2.attrs = s.attrs /\ s2.val = s.val),
@@ -54,9 +56,10 @@ SetAttrClauses(ct, name, tok, r, s, s2) ==
    C19_quiet    |-> Quiet(r) ]]
 
 UnsetClauses(ct, name, r, s, s2) ==
-  LET ante == [C04_unset |-> Declared(ct, name), C19_quiet |-> TRUE]
+  LET ante == [C04_unset |-> Declared(ct, name), C19_class |-> ~r.ok, C19_quiet |-> TRUE]
   IN [ante |-> ante, holds |-> [
    C04_unset |-> ante.C04_unset => (r.ok /\ s2.attrs = MinusName(s.attrs, name) /\ s2.val = s.val),
+   C19_class |-> ante.C19_class => Documented(r, TRUE),
    C19_quiet |-> Quiet(r) ]]
 
 \* =========================== value assignment ===============================
